@@ -544,6 +544,18 @@ def cases(rng, tier, shard, nshards):
     cat = c09.catalogue()
     if shard == 0:
         yield from corpus()
+    if shard == 0:
+        # the catalogue entries that do not look like the rest (a character other than letters and digits in the name; a digit or a
+        # hyphen in the service): produced by a wildcard, they come back as LITERALS in the second application and must expand to
+        # themselves (seeded change C10-r5m1 refused "free text" and with it the one entry with a hyphen in its name)
+        import re as _re
+        odd = [a for a in cat if not _re.fullmatch(r"[a-z0-9-]+:[A-Za-z0-9]+", a)]
+        odd += [a for a in cat if _re.search(r"[0-9-]", a.split(":", 1)[0])][rng.randrange(40)::40]
+        for a in odd[:40]:
+            svc, name = a.split(":", 1)
+            for pat in ([a], svc + ":" + name[:3] + "*", [svc + ":" + name[: max(1, len(name) // 2)] + "*", "sts:AssumeRole"]):
+                yield TWICE, {"template": {"Resources": {"P": {"Type": "AWS::IAM::ManagedPolicy", "Properties": {"PolicyDocument": {
+                    "Version": "2012-10-17", "Statement": [{"Effect": "Allow", "Action": pat, "Resource": "*"}]}}}}}, "resolve": False}
     n = {"quick": 200, "thorough": 1100}[tier]
     for _ in range(6):
         yield RESULT_EDITED, {"template": gen_template(rng, cat, small=True), "resolve": rng.random() < 0.5}
